@@ -12,6 +12,7 @@ func init() {
 	register(&Spec{
 		ID: "C06",
 		Explanation: "Decides (lockset over the module call graph, under the assumption that the lock exists, i.e. WithLock(true)): R1 every read of shared tree state (fields of node/Tree written by code reachable from Add/Remove/Clean outside construction) reachable from the listed operations Tree.{Add,Remove,Clean,Routes,URL,Handler} and from the types.Node methods happens under the tree lock in read mode at least, every write in write mode — at the access or at every call site on the chain; R2 every acquisition is released on every path to every exit and the lock is never re-acquired while held; R4 within one operation the lock is never acquired again after it was released (no check-then-act gap between validation and mutation); R3 the acquired-while-held relation between all mutexes of the module (tree lock, package-level memo mutex) is acyclic, so serving and registering goroutines cannot deadlock on each other. " +
+			"R12 (= C03.R18) a split keeps the node's place among its siblings. " +
 			"Not decided: linearizability of responses; races inside user handlers; Router.Use (not among the listed operations).",
 		Assumptions: append([]string{"the lock field is non-nil (the property is about WithLock(true)): the nil edge of `locker != nil` is pruned", "closures created in a function run while that function's lock state holds (true for every closure of the tree package: comparator and deferred unlocks)"}, commonAssumptions...),
 		Run: func(c *Ctx) {
@@ -24,6 +25,8 @@ func init() {
 			ruleReadersWriteNothing(c, "R9")
 			ruleNodeMethodSetReadOnce(c, "R10")
 			ruleAnswerFromOneSection(c, "R11")
+			ruleSplitKeepsThePosition(c, "R12")
+			ruleIndexRebuilt(c, "R13")
 		},
 	})
 }
